@@ -97,3 +97,21 @@ fn c19_rdh_trigger_label() {
     kani::cover!(t & 0x292 == 0, "other");
     core::mem::forget(s);
 }
+
+//@ harness: c19_rdh_lane_status_label props=C19 tier=quick class=functional covers=3 mem=8 timeout=600 est=20
+//@ bounds: all 2^512 headers: the RDH lane-status label of the readout-frame views = worst of the detector-field status bits (bit 3 fatal, bit 2 error, bit 1 warning, bit 0 missing data)
+#[kani::proof]
+#[kani::unwind(8)]
+fn c19_rdh_lane_status_label() {
+    use alice_protocol_reader::prelude::{RdhCru, SerdeRdh};
+    let b: [u8; 64] = kani::any();
+    let rdh = RdhCru::from_buf(&b).unwrap();
+    let df = (b[48] as u32) | (b[49] as u32) << 8 | (b[50] as u32) << 16 | (b[51] as u32) << 24;
+    let s = rdh_detector_field_lane_status_as_string(&rdh);
+    let expect = if df & 8 != 0 { "Fatal  " } else if df & 4 != 0 { "Error  " } else if df & 2 != 0 { "Warning" } else if df & 1 != 0 { "Missing" } else { "-      " };
+    assert!(eq(&s, expect), "RDH lane status label");
+    kani::cover!(df & 0xF == 8, "fatal only");
+    kani::cover!(df & 0xF == 1, "missing data only");
+    kani::cover!(df & 0xF == 0, "ok");
+    core::mem::forget(s);
+}
